@@ -247,6 +247,13 @@ func main() {
 		pprof.StartCPUProfile(f)
 		defer pprof.StopCPUProfile()
 	}
+	if len(os.Args) >= 2 && os.Args[1] == "probe" {
+		// which of the two behaviours the property allows does RegisterCandidate have for the upper-case spelling?
+		w := newWorld(newNames(vio.Seed()), 4, "C34")
+		r := w.exec(&act{T: "reg", K: "c1", Sp: "U", Own: "o1"})
+		vio.Emit(map[string]interface{}{"altsp_accepted": r == "ok"})
+		return
+	}
 	if len(os.Args) < 4 || os.Args[1] != "edges" {
 		vio.Fatal("usage: vd-gov edges <mode C32|C33|C34|C35> <NV> [depth] [cap]   (edges on stdin)")
 	}
